@@ -386,7 +386,7 @@ fn pm_pair_scenario(rec: &mut Rec, rng: &mut Rng, secp: &Secp, n_msgs: usize, bi
 		}
 	}));
 	if let Err(p) = r { rec.oracle_fail(format!("PeerManager panicked in a {}-message scenario: {}", n_msgs, p)); return; }
-	if !queued { rec.oracle_fail("handshake between two PeerManagers did not complete".into()); return; }
+	if !queued && plan == Plan::Clean { rec.oracle_fail("handshake between two PeerManagers did not complete".into()); return; }
 
 	// ---- describe the sender's stream to the model: frames as the PeerManager wrote them
 	let sd = if sender_is_initiator { &da } else { &db };
